@@ -17,6 +17,7 @@ for key, c in REGISTRY.contracts.items():
     t=time.time()
     rep = verify_contract(REGISTRY, repo, c)
     print(f"== {c.qualname}: {rep.status} {rep.reason or ''} obligations={len(rep.obligations)} trivial={rep.trivial} paths={rep.paths} gen={rep.gen_seconds:.2f}s")
+    print("   vacuity:", rep.vacuity.get("requires_sat"), "canaries", {r: rep.vacuity.get("canaries", []).count(r) for r in set(rep.vacuity.get("canaries", []))}, "dead", rep.vacuity.get("dead_paths"))
     discharge(rep.obligations)
     for ob in rep.obligations:
         r = ob.result
